@@ -140,7 +140,7 @@ func c10Pool() []c10Val {
 		v := v
 		add("char", fmt.Sprintf("char(%d)", v), func() tengo.Object { return &tengo.Char{Value: v} })
 	}
-	for _, v := range []string{"", "a", "A", "b", "ab", "abc", "héllo", "日本語", "\xff\xfe", "a\x00", "1", "12", "-3", "2.5", "1e3", " 1", "true", "0", "9223372036854775808", "0x10", "NaN", "inf"} {
+	for _, v := range []string{"", "a", "A", "b", "ab", "abc", "héllo", "日本語", "\xff\xfe", "a\x00", "1", "12", "-3", "2.5", "1e3", " 1", "true", "0", "9223372036854775808", "0x10", "NaN", "inf", "010", "0123", "08", "-007", "+5", "0b11", "0o17", "1_000", "7 ", ".5", "5.", "0x1p4", "1_0.5", "-0", "T", "1", "t", "FALSE"} {
 		v := v
 		add("string", fmt.Sprintf("string(%q)", v), func() tengo.Object { return &tengo.String{Value: v} })
 	}
